@@ -71,6 +71,7 @@ from .. import util
 
 ID = "C04"
 LEVEL = "exploration"
+TECHNIQUE = "runtime monitoring: conservation invariants on the real simulators (grid sums before/after one step) + face-flux pairing monitor on the compiled ENO3 sub-kernels taken from the kernel registry"
 TITLE = "Transport, diffusion and forcing conserve total vorticity / transported scalar"
 RULE = (
     "end to end: pairwise covering array over {forcing, free stream, filter off|mult 1..3|conv 1..3, solver, zone width "
